@@ -5,6 +5,7 @@ package c19
 import (
 	"errors"
 	"fmt"
+	"go.uber.org/zap/verif/internal/mon"
 	"log"
 	"net/url"
 	"os"
@@ -16,6 +17,7 @@ import (
 	"strings"
 	"sync"
 	"sync/atomic"
+	"time"
 
 	"go.uber.org/zap"
 	"go.uber.org/zap/verif/internal/ev"
@@ -113,9 +115,25 @@ func (e *env) genPath(g *rng.R, forceFail, forceOK bool) pathCase {
 	e.n++
 	id := fmt.Sprintf("%d", e.n)
 	for {
-		k := g.Intn(10)
+		k := g.Intn(14)
 		var pc pathCase
 		switch k {
+		case 10:
+			// exactly the path given is opened, dot segments and all: "<link>/../f" names a file beside
+			// the directory the symbolic link points into, not beside the link
+			real := filepath.Join(e.dir, "real")
+			if _, err := os.Lstat(filepath.Join(e.dir, "link")); err != nil {
+				_ = os.MkdirAll(filepath.Join(real, "sub"), 0o755)
+				_ = os.Symlink(filepath.Join(real, "sub"), filepath.Join(e.dir, "link"))
+			}
+			pc = pathCase{path: "file://" + e.dir + "/link/../via-" + id + ".log", kind: "file-url-dotdot-through-symlink", file: filepath.Join(real, "via-"+id+".log")}
+		case 11:
+			pc = pathCase{path: rng.Pick(g, []string{"file://", "file://localhost", ""}) + e.dir + "/missing-" + id + "/../m-" + id + ".log", kind: "unopenable-dotdot-through-missing-dir", fails: true}
+		case 12:
+			pc = pathCase{path: "file://" + e.dir + "/t-" + id + ".log/", kind: "unopenable-trailing-slash", fails: true}
+		case 13:
+			w := rng.Pick(g, []string{"stderr", "stdout"})
+			pc = pathCase{path: "./" + w, kind: "relative-file-named-like-a-standard-stream", file: filepath.Join(e.dir, w)}
 		case 0, 1:
 			pc = pathCase{path: fmt.Sprintf("%s://ok/%s", rng.Pick(g, []string{schemeA, schemeB, strings.ToUpper(schemeA)}), id), kind: "custom-ok", instance: true}
 		case 2:
@@ -796,11 +814,95 @@ func Run(r *ev.Run) {
 	redirectCases(r)
 	urlCases(r, e)
 	registryCases(r, e)
+	reentrantFactories(r, e)
 	if f := os.Getenv("VERIF_HEAPPROF"); f != "" {
 		runtime.GC()
 		if fh, err := os.Create(f); err == nil {
 			_ = pprof.WriteHeapProfile(fh)
 			fh.Close()
 		}
+	}
+}
+
+// ---- sink factories that use zap themselves ---------------------------------------------------------
+
+type composite struct {
+	zapcore.WriteSyncer
+	closeFn func()
+}
+
+func (c composite) Close() error { c.closeFn(); return nil }
+
+// reentrantFactories: a registered factory is user code and may use zap's own entry points - a
+// fan-out sink that opens its parts with zap.Open, a factory that registers a helper scheme the first
+// time it runs. Open either succeeds (and the write arrives) or returns an error; it does not hang.
+func reentrantFactories(r *ev.Run, e *env) {
+	fan := fmt.Sprintf("vsfan%d", os.Getpid())
+	lazy := fmt.Sprintf("vslazy%d", os.Getpid())
+	_ = zap.RegisterSink(fan, func(u *url.URL) (zap.Sink, error) {
+		w, closeFn, err := zap.Open(filepath.Join(e.dir, "fan-"+u.Host+"-a.log"), "file://"+filepath.Join(e.dir, "fan-"+u.Host+"-b.log"))
+		if err != nil {
+			return nil, err
+		}
+		return composite{w, closeFn}, nil
+	})
+	helperN := 0
+	_ = zap.RegisterSink(lazy, func(u *url.URL) (zap.Sink, error) {
+		helperN++
+		helper := fmt.Sprintf("vshelper%d-%d", os.Getpid(), helperN)
+		if err := zap.RegisterSink(helper, factory); err != nil {
+			return nil, err
+		}
+		w, closeFn, err := zap.Open(filepath.Join(e.dir, "lazy-"+u.Host+".log"))
+		if err != nil {
+			return nil, err
+		}
+		return composite{w, closeFn}, nil
+	})
+	n := r.N(12, 200)
+	for i := 0; i < n; i++ {
+		id := fmt.Sprintf("c19/reentrant/%d", i)
+		if !r.Want(id) {
+			continue
+		}
+		name := fmt.Sprintf("n%d", i)
+		scheme, files := fan, []string{"fan-" + name + "-a.log", "fan-" + name + "-b.log"}
+		if i%2 == 1 {
+			scheme, files = lazy, []string{"lazy-" + name + ".log"}
+		}
+		var w zapcore.WriteSyncer
+		var closeFn func()
+		var err error
+		h := mon.Watch(20*time.Second, func() { w, closeFn, err = zap.Open(scheme + "://" + name) }, "go.uber.org/zap.")
+		r.Eval(1)
+		r.Count("reentrant_factory_opens", 1)
+		r.Distinct(fmt.Sprintf("reentrant|%s|%d", scheme[:5], i))
+		bad := func(class, f string, a ...any) {
+			r.Violate(ev.Violation{Case: id, Class: class, Msg: fmt.Sprintf("Open(%s://%s), a sink whose factory itself calls zap.Open/RegisterSink: ", scheme, name) + fmt.Sprintf(f, a...)})
+		}
+		switch {
+		case h.Panicked != "":
+			bad("open-panic", "panicked: %s", h.Panicked)
+			continue
+		case h.Dead:
+			bad("open-deadlock", "Open neither succeeds nor returns an error: it is blocked for good (goroutines: %s)", h.Dump)
+			return // the registry is unusable from here on
+		case h.Hung:
+			r.Inconclusive(id + ": Open did not return within the guard time but goroutines still move")
+			return
+		}
+		if err != nil {
+			bad("open-spurious-error", "valid sink but Open returned %v", err)
+			continue
+		}
+		msg := fmt.Sprintf("through-a-composite-sink-%d\n", i)
+		_, _ = w.Write([]byte(msg))
+		_ = w.Sync()
+		for _, f := range files {
+			if b, _ := os.ReadFile(filepath.Join(e.dir, f)); !strings.Contains(string(b), msg) {
+				bad("destination-missed", "file %s did not receive the write", f)
+			}
+		}
+		closeFn()
 	}
 }
